@@ -215,9 +215,8 @@ CHECKS = {
              "(repr of ints, floats, str, bytes, UUID, datetime; indentation, commas) is NOT modelled: it is tied per "
              "run by parsing repr(S) with ast into the model's expr and by the oracle eval(repr(S)) == S, "
              "repr(eval(repr(S))) == repr(S) on /repo. Partial in that sense.",
-        note=COMMON_NOTE + "F15 (non-finite float printed as inf/nan) is an open known finding of the text layer, as is F43 (enum members and "
-             "other instances of subclasses of the built-in types that override __repr__ are printed with that repr); F14 "
-             "repaired by a fix: commit.",
+        note=COMMON_NOTE + "F15 (non-finite float printed as inf/nan) is an open known finding of the text layer; F14 and F43 (enum members and "
+             "other instances of subclasses of the built-in types were printed with their own repr) repaired by fix: commits.",
         technique="Coq proof (round trip through the declaration model, nested induction) + ast-level correspondence + direct oracle",
         design="6 C06"),
     "C01": dict(
